@@ -224,11 +224,15 @@ pub trait ElementMut: Element + NodeMut {
     fn set_attribute_node(&self, new_attr: XmlAttr) -> error::Result<Option<XmlAttr>>;
 
     fn remove_attribute_node(&self, old_attr: XmlAttr) -> error::Result<XmlAttr> {
-        if let Some(attr) = self.get_attribute_node(old_attr.name().as_str()) {
-            self.remove_attribute(old_attr.name().as_str())?;
-            Ok(attr)
-        } else {
-            Err(error::DomException::NotFoundErr)?
+        match self.get_attribute_node(old_attr.name().as_str()) {
+            Some(attr)
+                if attr.owner_document() == old_attr.owner_document()
+                    && attr.as_node().id() == old_attr.as_node().id() =>
+            {
+                self.remove_attribute(old_attr.name().as_str())?;
+                Ok(attr)
+            }
+            _ => Err(error::DomException::NotFoundErr)?,
         }
     }
 
@@ -1767,7 +1771,7 @@ impl ElementMut for XmlElement {
             return Err(error::DomException::WrongDocumentErr)?;
         }
 
-        if new_attr.attribute.borrow().order() != 0 {
+        if new_attr.attribute.borrow().owner_element().is_ok() {
             return Err(error::DomException::InuseAttributeErr)?;
         }
 
